@@ -180,7 +180,7 @@ pub fn unsol_op(rng: &mut Rng, enable: bool) -> Op {
     simple_request(if enable { refapp::FUNC_ENABLE_UNSOL } else { refapp::FUNC_DISABLE_UNSOL }, headers)
 }
 
-pub const LOCK_SITES: [&str; 7] = ["select", "write_response_headers", "get_events_info", "clear_written_events", "write_unsolicited", "reset", ""];
+pub const LOCK_SITES: [&str; 9] = ["select", "write_response_headers", "get_events_info", "clear_written_events", "write_unsolicited", "reset", "wait_for_change", "wait_for_change", ""];
 
 /// random outstation configuration knobs shared by the event-related properties
 pub fn gen_event_cfg(rng: &mut Rng) -> OutCfg {
